@@ -847,6 +847,33 @@ fn case_repeat(kv: &Kv) -> String {
                 all_same = false;
             }
         }
+        // items that are not equal to themselves (floats with NaN): only PartialEq is needed by the per-algorithm
+        // module functions; the same object passed twice must give what two separate copies give, and every
+        // segment reported equal must be element-wise equal
+        if old == new && alg != similar::Algorithm::Patience {
+            let f: Vec<f64> = old.iter().map(|x| if *x % 3 == 0 { f64::NAN } else { *x as f64 }).collect();
+            let g = f.clone();
+            let run = |a: &[f64], b: &[f64]| -> Vec<similar::DiffOp> {
+                let mut h = similar::algorithms::Capture::new();
+                match alg {
+                    similar::Algorithm::Lcs => similar::algorithms::lcs::diff(&mut h, a, os..oe, b, ns..ne).unwrap(),
+                    _ => similar::algorithms::myers::diff(&mut h, a, os..oe, b, ns..ne).unwrap(),
+                }
+                h.into_ops()
+            };
+            let same_obj = run(&f[..], &f[..]);
+            let copies = run(&f[..], &g[..]);
+            if !same_ops(&same_obj, &copies) {
+                all_same = false;
+            }
+            for op in &same_obj {
+                if let (similar::DiffTag::Equal, o, n) = op.as_tag_tuple() {
+                    if o.clone().zip(n.clone()).any(|(i, j)| f[j] != f[i]) {
+                        all_same = false;
+                    }
+                }
+            }
+        }
         // old and new of DIFFERENT item types that compare equal across types while hashing differently
         #[derive(PartialEq, Eq, PartialOrd, Ord, Clone, Copy)]
         struct Wide(u64);
